@@ -1,4 +1,7 @@
 --------------------------- MODULE MCCollections ---------------------------
 EXTENDS Collections
-AllShapes == {"TSS", "TSD", "TSL", "TSB", "TSW"}
+FiveShapes == {"TSS", "TSD", "TSL", "TSB", "TSW"}
+DynOnly == {"DTSL"}
+OneVal == {1}
+AllShapes == {"TSS", "TSD", "TSL", "TSB", "TSW", "DTSL"}
 =============================================================================
